@@ -272,6 +272,14 @@ func Drive(run *common.Run, prop string, b Budget) {
 		run.Count("mode=" + c.Mode)
 		run.Count("K=" + strconv.Itoa(c.K))
 		run.Count(fmt.Sprintf("nodes=%02d-%02d", len(g.Nodes)/4*4, len(g.Nodes)/4*4+3))
+		for _, n := range g.Nodes {
+			if n.Desc.MediaType == "application/vnd.verif.alt.layer" {
+				run.Count("blob-twin(same bytes, two blob media types)")
+				if res.Root2 >= 0 && g.Reach(res.Root2)[n.ID] {
+					run.Count("blob-twin reachable")
+				}
+			}
+		}
 		if c.MapRoot >= 0 {
 			run.Count("maproot")
 		}
